@@ -21,10 +21,11 @@ import (
 	"pgregory.net/rapid"
 
 	"verif/ev"
+	"verif/rig/mesh"
 	"verif/rig/codec"
 )
 
-func TestMain(m *testing.M) { codec.Register(); ev.Main(m) }
+func TestMain(m *testing.M) { codec.Register(); mesh.Boot(); mesh.SpreadPorts(); ev.Main(m) }
 
 const (
 	partStream = "stream"
